@@ -20,6 +20,7 @@ import (
 // receiver, RedisConn, proto reader/writer, batcher) against the redisd double.
 
 const (
+	probeKey    = "probe:key"
 	aofTarget   = "target:6379"
 	aofRunID    = "aaaaaaaaaaaaaaaaaaaaaaaaaaaaaaaaaaaaaaaa"
 	durBatch    = 1001 * time.Millisecond
@@ -34,6 +35,7 @@ type aofCfg struct {
 	Count    uint   `json:"count"`    // BatchCmdCount
 	Bytes    uint64 `json:"bytes"`    // BatchBufferSize
 	DbMode   string `json:"dbmode"`   // "id" | "map12" | "all0" | "shift" | "swap"
+	Probe    bool   `json:"probe,omitempty"` // input.syncDelayTestKey configured: the stream may carry the tool's own delay probe
 }
 
 func (c aofCfg) String() string {
@@ -91,6 +93,7 @@ func (c aofCfg) outputConfig(cpName string) RedisOutputConfig {
 		ReplayRdbEnableRestore:     true,
 		ReplayPipeline:             c.Pipeline,
 		UpdateCheckpointTicker:     durCp,
+		SyncDelayTestKey:           map[bool]string{true: probeKey, false: ""}[c.Probe],
 		Stats:                      config.OutputStats{DisableLog: true},
 		Filter: config.FilterConfig{
 			DbBlacklist:  []int{blackDB},
